@@ -4,7 +4,7 @@ from . import common
 from .C04 import py_cmp, mutate, NAMES
 
 SPEC_THEOREM = 'Props/C14: refuted in general (witness classes); embedding proved on the class key_safe_doc, containers included (C14_container_keys_order_as_compare)'
-TRUSTED = ['Coq 8.16.1 kernel', 'translator (levels)', 'extraction + OCaml driver', 'Rust harness', 'model CmpKey.v (view-level mirror of convert_to_comparable)']
+TRUSTED = ['Coq 8.16.1 kernel', 'translator (levels)', 'extraction + OCaml driver', 'Rust harness', 'specification CmpKey.v (tree-level key, class key_safe_doc) and the offset-faithful walker ComparableWalk.v tied by correspondence']
 ASSUMPTIONS = ['documents are canonical encodings of well-formed values']
 RULE = 'pairs as in C04 (mutations of a base document); the byte order of the two keys is compared with compare; pairs inside an open known-finding class are counted, not judged, EXCEPT pairs inside the proved class key_safe_doc (CmpKey.v), which are always judged; non-trivial = keys differ'
 
